@@ -107,3 +107,70 @@ TEXT["C17"] = dict(
           "accepted' (equal values need exp(0) = 1 > u) and 'never as T -> 0' are covered ONLY by a bounded native grid run "
           "(labelled native_bounded in the evidence, never counted as proved); the acceptance probability itself is not decided."),
 )
+
+
+# ---- session-3 refinements, applied to the assembled strings (each `old` must occur: a stale patch is an error)
+_PATCHES = {
+    "C05": [
+        ("(as_solutions_mut, into_individuals, into_solutions) are Kani Hoare triples at sizes <= 2, hence level 'other'.",
+         "(as_solutions_mut, into_individuals, into_solutions) are Kani Hoare triples at sizes <= 2, hence level 'other'; evaluate_with, solution_mut, set_objective, into_solution and the constructors are additionally complete loop-free Kani triples (they decide changed code Verus cannot enter)."),
+        ("The clause about every step of every shipped heuristic is NOT decided (whole runs); listed under uncovered_clauses in the evidence.",
+         "The clause about every step of every shipped heuristic is not decided by contracts; the FINAL state of whole runs of 19 shipped templates is checked by a bounded native run (native_bounded in the evidence, never counted as proved)."),
+    ],
+    "C06": [
+        ("Kani/CBMC Hoare triple on the real Sequential::evaluate with a call-logging objective function",
+         "Kani/CBMC Hoare triples on the real Sequential::evaluate and StateReq::require + Verus contract on PopulationEvaluator::require/init"),
+        ("Partial: the counter clause, the missing-evaluator error, the parallel evaluator and the whole-run equality are NOT decided (see uncovered_clauses).",
+         "PopulationEvaluator::require is extracted verbatim and proved (Verus, unbounded) to be Ok exactly if the population stack and the evaluator with the component's OWN identifier are present (with C03: a failed requirement means nothing executes); StateReq::require itself is a Kani triple. The counter clause (PopulationEvaluator::execute), the parallel evaluator and the whole-run equality 'reported evaluations = objective-function invocations' (19 shipped templates) are covered ONLY by bounded native runs; the latter fails for the two ILS templates, recorded as a known finding."),
+        ("Bounded by population size <= 3. PopulationEvaluator::execute is out of reach of both verifiers (DESIGN §4 C06).",
+         "Kani part bounded by population size <= 3. PopulationEvaluator::execute is out of reach of both verifiers (DESIGN §4 C06): bounded native stand-ins only (native_bounded in the evidence, never counted as proved)."),
+    ],
+    "C07": [
+        ("Verus contract on the real BestIndividual::update over an abstract total order + Kani kernels",
+         "Verus contracts on the real BestIndividual::update, BestIndividualUpdate::execute, ElitistArchive::update and ElitistArchiveIntoPopulation::execute over an abstract total order + Kani kernels"),
+        ("Kernel harnesses (population minimum, elitist archive) are bounded Kani triples.",
+         "ElitistArchive::update is proved (unbounded: any archive, population, capacity) to leave the sorted min(k, shown) best objective values of archive ++ population with no discarded value better than a kept one; BestIndividualUpdate::execute and ElitistArchiveIntoPopulation::execute are proved against those contracts (no duplicates re-inserted). Kernel harnesses (population minimum, elitist archive) are bounded Kani triples; 3-update archive histories and the whole-run clause 'reported best = minimum returned' (19 shipped templates) are bounded native runs; the latter fails for the two ILS templates, recorded as a known finding."),
+        ("Individual contracts (C05). Whole-run clause uncovered.",
+         "Individual contracts (C05); assumed std meaning of extend_from_slice / sort_unstable_by_key / truncate. The composition of the per-update archive contract over a history is argued on paper (DESIGN §6a) and checked only on bounded histories."),
+    ],
+    "C10": [
+        ("NOT covered: And/Or::evaluate (closure capturing &mut state), LessThanN, OptimumReached, RandomChance, the 'exactly n passes' composition.",
+         "LessThanN::evaluate (Verus, decision only: float division is uninterpreted) and the lemma 'a loop bounded by n makes exactly n passes' are part of the units. And/Or::evaluate (closure capturing &mut state), OptimumReached, RandomChance, the progress VALUE and whole loops (passes, tests, every-n) are covered ONLY by bounded native runs (native_bounded in the evidence, never counted as proved)."),
+    ],
+    "C12": [
+        ("Verus contracts on the real replacement() driver and MuPlusLambda::replace + Kani/CBMC Hoare triples on the replace kernels",
+         "Verus contracts on the real replacement() driver and the replace kernels + Kani/CBMC Hoare triples on the replace kernels"),
+        ("The kernels DiscardOffspring, Generational, Merge, MuPlusLambda, RandomReplacement are also checked",
+         "DiscardOffspring, Generational, Merge and RandomReplacement::replace are proved (unbounded) to return all parents / all offspring / their concatenation / min(mu, total) individuals that are a sub-multiset of parents ++ offspring. All five kernels are also checked"),
+        ("assumed std meaning of Vec::extend / sort_unstable_by_key / truncate in the Verus unit",
+         "assumed std/rand meaning of Vec::extend / into_iter().chain().collect() / shuffle / sort_unstable_by_key / truncate in the Verus units"),
+    ],
+    "C13": [
+        ("Mutation components' execute bodies (State + RNG) are not covered.",
+         "Mutation components, DE variation operators and the crossover components (State + RNG) are out of reach of both verifiers too and are covered ONLY by bounded native runs over seeds (native_bounded); writing them exposed four genuine defects (InversionMutation, InsertionMutation/translocate pre-condition, TranslocationMutation, DEMutation), all repaired."),
+        ("and OptionalPair::from_pair are checked at concrete lengths (<= 4, thorough 5) over all contents and valid index tuples.",
+         "and OptionalPair::from_pair are checked at concrete lengths (<= 4, thorough 5) over all contents and valid index tuples, multi-point crossover also for parents of unequal length."),
+    ],
+    "C14": [
+        ("sampler distribution and initialisation operators uncovered.",
+         "sampler distribution uncovered; the initialisation kernels and the initialisation / boundary-repair COMPONENTS are covered ONLY by bounded native runs (native_bounded); the initialization() driver is a Verus unit. Kani 0.68 / CBMC 6.11 do not evaluate `f64 % f64` like Rust (measured); no harnessed function uses it on the pinned tree, and a Kani counterexample that passes native replay is reported as undecided, not as a violation."),
+    ],
+    "C15": [
+        ("NOT covered: JSON/CBOR/RON encoding/decoding, configuration export.",
+         "JSON/CBOR decoding of the log export and the RON configuration export of 19 shipped templates (serialisable, clone identical, one-value parameter variations and structural variants differ, components named) are covered ONLY by bounded native runs; the latter exposed that to_ron failed for every lens-based configuration (repaired)."),
+    ],
+    "C17": [
+        ("Verus contract on the real ExponentialAnnealingAcceptance::execute (decision structure) + Kani on GeometricCooling::map",
+         "Verus contracts on the real ExponentialAnnealingAcceptance::execute (decision structure), mapping() and GeometricCooling::execute + Kani on GeometricCooling::map"),
+        ("GeometricCooling::map is value * alpha bit-exactly for all f64 (complete).",
+         "GeometricCooling::map is value * alpha bit-exactly for all f64 (complete); the mapping() driver is proved (unbounded, arbitrary lenses and mappings) to read its input once, map once and assign once through the output lens, and GeometricCooling::execute to use its own lens on both sides: together 'multiplies the temperature by its factor exactly once per execution'."),
+    ],
+}
+for _pid, _lst in _PATCHES.items():
+    _t = dict(TEXT[_pid])
+    for _old, _new in _lst:
+        _hit = [k for k in ("technique", "text", "note") if _old in _t.get(k, "")]
+        assert _hit, f"stale manifest text patch for {_pid}: {_old[:60]}"
+        for k in _hit:
+            _t[k] = _t[k].replace(_old, _new)
+    TEXT[_pid] = _t
